@@ -67,7 +67,11 @@ func genC08(r *sim.Rand, tier string) *sim.Program {
 		if i > 0 && r.Chance(1, 3) {
 			reuse = 1 // the sm2.KeyExchange objects of the previous session are used again
 		}
-		p.Add("session", r.Intn(2), r.Intn(2), fault, r.Intn(3), r.Intn(1<<16), 1+r.Intn(255), r.Intn(1<<30), r.Intn(1<<30), degenerate, reuse)
+		mixed := 0
+		if r.Chance(1, 5) {
+			mixed = r.Range(1, 2) // 1: only the responder generates confirmation values; 2: only the initiator does
+		}
+		p.Add("session", r.Intn(2), r.Intn(2), fault, r.Intn(3), r.Intn(1<<16), 1+r.Intn(255), r.Intn(1<<30), r.Intn(1<<30), degenerate, reuse, mixed)
 	}
 	if r.Chance(1, 3) {
 		p.Add("ecdh")
@@ -158,7 +162,7 @@ func execC08(t *testing.T, p *sim.Program, c *sim.Ctx) {
 		b[31] |= 1
 		return new(big.Int).SetBytes(b)
 	}
-	newParty := func(impl int, initiator bool, r *big.Int, privA, privB *sm2.PrivateKey, dA, dB *big.Int, reuseKE *sm2.KeyExchange) (*c08Party, error) {
+	newParty := func(impl int, initiator bool, r *big.Int, privA, privB *sm2.PrivateKey, dA, dB *big.Int, reuseKE *sm2.KeyExchange, conf bool) (*c08Party, error) {
 		q := &c08Party{impl: impl, initiator: initiator, klen: klen, conf: conf, rEph: r}
 		if initiator {
 			q.priv, q.d, q.peerPub, q.uid, q.peerUID = privA, dA, &ecdsa.PublicKey{Curve: privB.Curve, X: privB.X, Y: privB.Y}, idA, idB
@@ -223,6 +227,20 @@ func execC08(t *testing.T, p *sim.Program, c *sim.Ctx) {
 		}
 		rA, rB := scalar(op.Int(6), "ra"), scalar(op.Int(7), "rb")
 		degenerate, reuse := op.Int(8), op.Int(9) == 1
+		// confirmation options per party (GB/T 32918.3: the confirmation values are optional); a party checks a value it RECEIVES
+		confA, confB := conf, conf
+		switch op.Int(10) {
+		case 1:
+			confA, confB = false, true
+			reuse = false
+		case 2:
+			confA, confB = true, false
+			reuse = false
+		}
+		if confA != confB {
+			implA, implB = 0, 0 // the harness-computed confirmations of the ecdh party assume symmetric options
+			c.Hit("probe:mixed-confirmation-options")
+		}
 		// session-local static keys (a degenerate party's static key is derived from its ephemeral key)
 		privA, dA, PA, zA := privA0, dA0, PA0, zA0
 		privB, dB, PB, zB := privB0, dB0, PB0, zB0
@@ -252,7 +270,7 @@ func execC08(t *testing.T, p *sim.Program, c *sim.Ctx) {
 				}
 			}
 		}
-		c.Abs("s", implA, implB, fault, fmsg, degenerate, reuse)
+		c.Abs("s", implA, implB, fault, fmsg, degenerate, reuse, op.Int(10))
 		attempts := 1
 		if fault == 9 {
 			attempts = 2 // a dropped message: the session is restarted and must then complete in three deliveries
@@ -267,17 +285,17 @@ func execC08(t *testing.T, p *sim.Program, c *sim.Ctx) {
 			if reuse && attempt == 0 {
 				ruA, ruB = keepA, keepB
 			}
-			A, err := newParty(implA, true, rA, privA, privB, dA, dB, ruA)
+			A, err := newParty(implA, true, rA, privA, privB, dA, dB, ruA, confA)
 			if err != nil {
 				c.Fail("setup", i, op.K, "initiator: %v", err)
 				return
 			}
-			B, err := newParty(implB, false, rB, privA, privB, dA, dB, ruB)
+			B, err := newParty(implB, false, rB, privA, privB, dA, dB, ruB, confB)
 			if err != nil {
 				c.Fail("setup", i, op.K, "responder: %v", err)
 				return
 			}
-			if degenerate == 0 {
+			if degenerate == 0 && confA == conf && confB == conf {
 				keepA, keepB = A.ke, B.ke
 			} else {
 				keepA, keepB = nil, nil
@@ -339,7 +357,7 @@ func execC08(t *testing.T, p *sim.Program, c *sim.Ctx) {
 				if berr == nil {
 					B.rb = B.ee.PublicKey().Bytes()
 					m2 = append([]byte{}, B.rb...)
-					if conf {
+					if confB {
 						s1, _ := B.confirmations()
 						m2 = append(m2, s1...)
 					}
@@ -359,7 +377,7 @@ func execC08(t *testing.T, p *sim.Program, c *sim.Ctx) {
 				return
 			}
 			wantM2 := sm2m.MarshalUncompressed(RB)
-			if conf {
+			if confB {
 				wantM2 = append(wantM2, mres.S1[:]...)
 			}
 			c.Out("m2", m2)
@@ -380,8 +398,8 @@ func execC08(t *testing.T, p *sim.Program, c *sim.Ctx) {
 			aok := false
 			if okRB {
 				ares, aok = sm2m.KeyAgreement(true, dA, rA, PB, RBseen, zA, zB, RA, RBseen, klen)
-				if aok && conf && !bytes.Equal(sbSeen, ares.S1[:]) {
-					aok = false
+				if aok && len(sbSeen) > 0 && !bytes.Equal(sbSeen, ares.S1[:]) {
+					aok = false // a confirmation value that was received must be right, whatever this party's own option
 				}
 			}
 			var keyA, m3 []byte
@@ -403,11 +421,11 @@ func execC08(t *testing.T, p *sim.Program, c *sim.Ctx) {
 				}
 				if aerr == nil {
 					s1, s2 := A.confirmations()
-					if conf && !bytes.Equal(s1, sbSeen) {
+					if len(sbSeen) > 0 && !bytes.Equal(s1, sbSeen) {
 						aerr = fmt.Errorf("harness: S_B mismatch")
 					} else {
 						keyA, aerr = A.V.SM2SharedKey(false, klen, A.es.PublicKey(), pb, idA, idB)
-						if conf {
+						if confA {
 							m3 = s2
 						}
 					}
@@ -431,12 +449,12 @@ func execC08(t *testing.T, p *sim.Program, c *sim.Ctx) {
 				c.Fail("key-mismatch", i, op.K, "initiator (impl %d): key differs from the GB/T 32918.3 value", A.impl)
 				return
 			}
-			if conf && !bytes.Equal(m3, ares.S2[:]) {
+			if confA && !bytes.Equal(m3, ares.S2[:]) {
 				c.Fail("confirmation-mismatch", i, op.K, "initiator (impl %d): S_A differs from the GB/T 32918.3 value", A.impl)
 				return
 			}
 			var d3 []byte
-			if conf {
+			if confA {
 				d3 = c08Fault(c, f, fmsg == 2, m3, prevM3, fpos, fval, 32)
 				if d3 == nil {
 					c.Hit("fault:message-dropped")
@@ -444,13 +462,13 @@ func execC08(t *testing.T, p *sim.Program, c *sim.Ctx) {
 				}
 			}
 			// ---- B: finish
-			bok := !conf || bytes.Equal(d3, mres.S2[:])
+			bok := d3 == nil || bytes.Equal(d3, mres.S2[:])
 			var keyB []byte
 			if B.impl == 0 {
 				keyB, berr = B.ke.ConfirmInitiator(d3)
 			} else {
 				_, s2 := B.confirmations()
-				if conf && !bytes.Equal(s2, d3) {
+				if d3 != nil && !bytes.Equal(s2, d3) {
 					berr = fmt.Errorf("harness: S_A mismatch")
 				} else {
 					pa, _ := ecdh.P256().NewPublicKey(pt65(privA.X, privA.Y))
@@ -475,7 +493,7 @@ func execC08(t *testing.T, p *sim.Program, c *sim.Ctx) {
 				c.Fail("key-mismatch", i, op.K, "responder (impl %d): key differs from the GB/T 32918.3 value", B.impl)
 				return
 			}
-			if conf && !bytes.Equal(keyA, keyB) {
+			if (confA || confB) && !bytes.Equal(keyA, keyB) {
 				c.Fail("keys-differ", i, op.K, "both parties finished with confirmation but hold different keys")
 				return
 			}
